@@ -167,6 +167,47 @@ def headAt (src : Src) (off : Int) (h : Head) : Bool :=
   | .num => match s with | b :: _ => 48 ≤ b && b ≤ 57 | [] => false
   | .this_ => startsWith [116, 104, 105, 115] s
 
+/-! ## error objects made with a message
+
+  §15.11.1.1 / §15.11.2.1 (and §15.11.7.2/4 for NativeError): the [[Prototype]] is the constructor's prototype; if the
+  argument is not undefined the object gets an OWN `message` = ToString(argument) – the argument is data, whatever
+  it looks like.  `name` lives on the prototypes (§15.11.4.2, §15.11.7.9), so instances have no own `name` – except
+  errors with a custom name (MakeCustomError), which can carry it nowhere else.  Calling a constructor as a function
+  is the same as `new` (§15.11.1, §15.11.7.1): the constructor is not part of the trace of the error it makes. -/
+def errObs (_r : Route) (ctor : String) (arg : Option String) : ErrObs :=
+  let m := arg.getD ""
+  let text := errorToString (some ctor) (some m)
+  { runText := text
+    msgIsString := true
+    msg := m
+    ownMessage := arg.isSome
+    ownName := !(ctor = "Error" || isNativeSub ctor)
+    str := text
+    stackHead := text
+    nativeTop := false }
+
+/-- engine errors: the text names the offending user text verbatim -/
+def engineMsg : EngineMsg → String × String
+  | .evalToken t => ("SyntaxError", "(anonymous): Line 1:1 Unexpected token " ++ t)
+  | .jsonChar c => ("SyntaxError", "invalid character '" ++ c ++ "' looking for beginning of value")
+  | .unresolvable n => ("ReferenceError", "'" ++ n ++ "' is not defined")
+  | .notFunction n => ("TypeError", "\"" ++ n ++ "\" is not a function")
+
+/-- §15.11.4.4: step 2 "If Type(O) is not Object, throw a TypeError exception"; else steps 3-10 = `errorToString` -/
+def errorProtoToString : ThisKind → Option String
+  | .object n m => some (errorToString n m)
+  | _ => none
+
+def errObsDevs (r : Route) (ctor : String) (arg : Option String) : List String :=
+  (if arg = some "" then ["msg_empty_string_undefined"] else []) ++
+  (if ctor = "Error" then ["error_own_name"] else []) ++
+  (if r = .call ∧ isNativeSub ctor then ["ctor_call_native_frame"] else [])
+
+def engineMsgDevs : EngineMsg → List String
+  | .evalToken t => if t.toList.contains '%' then ["msg_format_verbs"] else []
+  | .jsonChar c => if c.toList.contains '%' then ["msg_format_verbs"] else []
+  | _ => []
+
 /-! ## deviation regions: decidable predicates over a request (used by the driver and as theorem hypotheses) -/
 
 /-- is the innermost activation a native one? -/
